@@ -58,7 +58,7 @@ def hostile_selectors(rng, model: sites.SiteModel, full: bool, n: int) -> typing
     """(raw selector as sent, prequoted?, class)"""
     objs = model.docs(full) + model.menus(full)
     out = []
-    outside_targets = [b"etc/passwd", b"outside-secret.txt", b"SIBLING/secret.txt"]
+    outside_targets = [b"etc/passwd", b"outside-secret.txt", b"SIBLING/secret.txt", b"evil.pyg", b"outside.mbox"]
     for _ in range(n):
         o = rng.choice(objs)
         k = rng.random()
@@ -80,6 +80,12 @@ def hostile_selectors(rng, model: sites.SiteModel, full: bool, n: int) -> typing
             base = o.selector if rng.random() < 0.6 else b""
             sel = base + b"/" + (dd + sl) * depth + rng.choice(outside_targets)
             out.append((sel, False, "unicode-lookalike"))
+        elif k < 0.66:
+            # a climb glued to a virtual-argument separator: the filter sees the whole selector, the
+            # virtual handlers only the part before the separator
+            up = rng.choice([b"/..", b"/../..", o.selector + b"/..", b"/..", b"/../outside.mbox", b"/../evil.pyg", b"/.."])
+            tail = rng.choice([b"|/MAILDIR-MESSAGE/1", b"|/MBOX-MESSAGE/1", b"?/MAILDIR-MESSAGE/1", b"?x", b"|x y", b"|/MAILDIR-MESSAGE/2"])
+            out.append((up + tail, False, "climb-with-virtual-argument"))
         elif k < 0.7:
             tail = rng.choice([b"|/MBOX-MESSAGE/1", b"?../../x", b"|../../etc/passwd", b"|/MAILDIR-MESSAGE/../1", b"?/etc/passwd"])
             out.append((o.selector + tail, False, "virtual-argument"))
@@ -115,6 +121,15 @@ def outside_world(sc: Scratch, root: str, model: sites.SiteModel, which: str) ->
         t.materialize(sib)
     with open(os.path.join(parent, "outside-secret.txt"), "wb") as fp:
         fp.write(marker + b" parent secret\n")
+    # the directory that contains the root is itself a Maildir and holds an executable PYG module
+    # and an mbox (what '/..' plus a virtual-argument suffix would name)
+    trees.maildir_tree(["OUTSIDE SUBJECT parent maildir " + which], where="cur").materialize(parent)
+    with open(os.path.join(parent, "evil.pyg"), "wb") as fp:
+        fp.write(b"open(%r, 'w').write('outside pyg ran')\nraise SystemError('outside pyg imported')\n"
+                 % os.path.join(parent, "PYG-RAN").encode())
+    os.chmod(os.path.join(parent, "evil.pyg"), 0o755)
+    with open(os.path.join(parent, "outside.mbox"), "wb") as fp:
+        fp.write(trees.make_mbox(["OUTSIDE SUBJECT parent mbox " + which], sc.path))
     # the working directory holds look-alikes of every path tail a request can name
     t = Tree()
     for p, n in model.tree.nodes.items():
